@@ -38,9 +38,12 @@ let ev_code = function
   | EvRETI -> (4, 0, 0) | EvRETN -> (5, 0, 0) | EvWarn -> (6, 0, 0) | EvPanic -> (7, 0, 0)
 
 let hmod = 1000000007
-let run_step model stepf =
+type case = { id : string; nsteps : int; tracemode : int; mutable cpu : cPU; sched : (int * int * z list) array;
+              evs : Buffer.t; mutable ntrace : int; mutable h : int; mutable nio : int }
+
+let parse_case () =
   let id = next () in
-  let _m = nexti () in ignore model;
+  let _m = nexti () in
   let nsteps = nexti () in
   let tracemode = nexti () in
   let r = Array.init 26 (fun _ -> nexti ()) in
@@ -61,26 +64,25 @@ let run_step model stepf =
   let alt = { gPR_AF = reg r.(8) r.(9); gPR_BC = reg r.(10) r.(11); gPR_DE = reg r.(12) r.(13); gPR_HL = reg r.(14) r.(15) } in
   let spr = { sPR_IR = reg r.(16) r.(17); sPR_IX = zi r.(18); sPR_IY = zi r.(19); sPR_SP = zi r.(20); sPR_PC = zi r.(21) } in
   let st = { states_GPR = gpr; states_SPR = spr; states_Alternate = alt; states_IFF1 = iff1; states_IFF2 = iff2; states_IM = z_of_int im } in
-  let cpu = ref { cPU_States = st; cPU_Memory = UserMem; cPU_IO = io; cPU_RETNHandler = retn; cPU_RETIHandler = reti;
-                  cPU_Interrupt = None; cPU_BreakPoints = None; cPU_HALT = halt;
-                  cPU_W = { ram = ram_closure (); trace = []; inputs = inputs } } in
-  let evs = Buffer.create 256 in
-  let ntrace = ref 0 in let h = ref 7 in
-  for k = 0 to nsteps - 1 do
-    Array.iter (fun (at, kind, data) ->
-      if at = k then cpu := { !cpu with cPU_Interrupt = Some { interrupt_Type = zi kind; interrupt_Data = data } }) sched;
-    let c = stepf !cpu in
-    (* move the new events out, apply the writes to the array, rebuild the ram closure *)
-    let newev = List.rev c.cPU_W.trace in
-    List.iter (fun e ->
-      let (kd, a, v) = ev_code e in
-      incr ntrace;
-      h := (((!h * 31 + kd) mod hmod * 31 + a) mod hmod * 31 + v) mod hmod;
-      if tracemode = 0 then Buffer.add_string evs (Printf.sprintf " %d %d %d" kd a v);
-      if kd = 1 then mem.(a land 65535) <- v land 255) newev;
-    cpu := { c with cPU_W = { ram = ram_closure (); trace = []; inputs = c.cPU_W.inputs } }
-  done;
-  let c = !cpu in let s = c.cPU_States in
+  let cpu = { cPU_States = st; cPU_Memory = UserMem; cPU_IO = io; cPU_RETNHandler = retn; cPU_RETIHandler = reti;
+              cPU_Interrupt = None; cPU_BreakPoints = None; cPU_HALT = halt;
+              cPU_W = { ram = ram_closure (); trace = []; inputs = inputs } } in
+  { id; nsteps; tracemode; cpu; sched; evs = Buffer.create 256; ntrace = 0; h = 7; nio = 0 }
+
+(* move the new events of a Step out of the state, apply the writes to the array, rebuild the ram closure *)
+let drain cs (c : cPU) =
+  let newev = List.rev c.cPU_W.trace in
+  List.iter (fun e ->
+    let (kd, a, v) = ev_code e in
+    cs.ntrace <- cs.ntrace + 1;
+    cs.h <- (((cs.h * 31 + kd) mod hmod * 31 + a) mod hmod * 31 + v) mod hmod;
+    if kd = 2 || kd = 3 then cs.nio <- cs.nio + 1;
+    if cs.tracemode = 0 then Buffer.add_string cs.evs (Printf.sprintf " %d %d %d" kd a v);
+    if kd = 1 then mem.(a land 65535) <- v land 255) newev;
+  cs.cpu <- { c with cPU_W = { ram = ram_closure (); trace = []; inputs = c.cPU_W.inputs } }
+
+let print_state id cs =
+  let c = cs.cpu in let s = c.cPU_States in
   let g = s.states_GPR and a = s.states_Alternate and p = s.states_SPR in
   let iz = int_of_z in
   let rr x = Printf.sprintf "%d %d" (iz x.register_Hi) (iz x.register_Lo) in
@@ -88,7 +90,66 @@ let run_step model stepf =
     (rr g.gPR_AF) (rr g.gPR_BC) (rr g.gPR_DE) (rr g.gPR_HL) (rr a.gPR_AF) (rr a.gPR_BC) (rr a.gPR_DE) (rr a.gPR_HL)
     (rr p.sPR_IR) (iz p.sPR_IX) (iz p.sPR_IY) (iz p.sPR_SP) (iz p.sPR_PC)
     (b2i s.states_IFF1) (b2i s.states_IFF2) (iz s.states_IM) (b2i c.cPU_HALT)
-    (b2i (c.cPU_Interrupt <> None)) !ntrace !h (Buffer.contents evs)
+    (b2i (c.cPU_Interrupt <> None)) cs.ntrace cs.h (Buffer.contents cs.evs)
+
+let run_step model stepf =
+  ignore model;
+  let cs = parse_case () in
+  for k = 0 to cs.nsteps - 1 do
+    Array.iter (fun (at, kind, data) ->
+      if at = k then cs.cpu <- { cs.cpu with cPU_Interrupt = Some { interrupt_Type = zi kind; interrupt_Data = data } }) cs.sched;
+    drain cs (stepf cs.cpu)
+  done;
+  print_state cs.id cs
+
+(* CPU.Run: Run_enter, then Run_iter (generated model of the loop body) until it yields a result;
+   the port trigger raises a request when the n-th port access has happened (visible at the next boundary) *)
+let run_run stepf =
+  let cs = parse_case () in
+  let nbp = nexti () in
+  let bps = if nbp < 0 then None else Some (List.init nbp (fun _ -> zi (nexti ()))) in
+  let cancelmode = nexti () in let _ms = nexti () in let nruns = nexti () in
+  let trign = nexti () in let trigkind = nexti () in let trignd = nexti () in
+  let data = List.init trignd (fun _ -> zi (nexti ())) in
+  cs.cpu <- { cs.cpu with cPU_BreakPoints = bps };
+  Array.iter (fun (at, kind, data) ->
+    if at = 0 then cs.cpu <- { cs.cpu with cPU_Interrupt = Some { interrupt_Type = zi kind; interrupt_Data = data } }) cs.sched;
+  let fired = ref false in
+  for r = 0 to nruns - 1 do
+    let code =
+      if cancelmode = 1 then 2 (* the real code may run any whole number of Steps first; handled by runto *)
+      else begin
+        cs.cpu <- run_enter cs.cpu;
+        let res = ref (-1) in
+        let k = ref 0 in
+        while !res < 0 do
+          let c1 = stepf cs.cpu in
+          drain cs c1;
+          if trign > 0 && not !fired && cs.nio >= trign then begin
+            fired := true;
+            cs.cpu <- { cs.cpu with cPU_Interrupt = Some { interrupt_Type = zi trigkind; interrupt_Data = data } } end;
+          let c = cs.cpu in
+          let hit = match c.cPU_BreakPoints with Some l -> List.exists (fun x -> int_of_z x = int_of_z c.cPU_States.states_SPR.sPR_PC) l | None -> false in
+          if hit then res := 1 else if c.cPU_HALT then res := 0;
+          incr k;
+          if !res < 0 && !k >= cs.nsteps then res := 3
+        done;
+        !res
+      end in
+    Printf.printf "%s.%d.res %d 0\n" cs.id r code;
+    print_state (Printf.sprintf "%s.%d" cs.id r) cs
+  done
+
+(* advance by whole Steps until the access count reaches the target; print the state there *)
+let run_to stepf =
+  let cs = parse_case () in
+  let target = nexti () in
+  Array.iter (fun (at, kind, data) ->
+    if at = 0 then cs.cpu <- { cs.cpu with cPU_Interrupt = Some { interrupt_Type = zi kind; interrupt_Data = data } }) cs.sched;
+  cs.cpu <- run_enter cs.cpu;
+  let k = ref 0 in
+  while cs.ntrace < target && !k < 50000000 do drain cs (stepf cs.cpu); incr k done;
+  print_state cs.id cs
 
 let mkgpr a f = { gPR_AF = reg a f; gPR_BC = reg 1 2; gPR_DE = reg 3 4; gPR_HL = reg 5 6 }
 let pr_gpr id g =
@@ -114,6 +175,12 @@ let () =
           | _ -> Model.spec_step unspec_b in
         ignore !specvariant;
         run_step m f
+      | "run" ->
+        let m = int_of_string ts.(2) in
+        run_run (match m with 0 -> Model.step | 1 -> Model.spec_step unspec_a | _ -> Model.spec_step unspec_b)
+      | "runto" ->
+        let m = int_of_string ts.(2) in
+        run_to (match m with 0 -> Model.step | 1 -> Model.spec_step unspec_a | _ -> Model.spec_step unspec_b)
       | "getflag" -> let id = next () in let a = nexti () in let f = nexti () in let m = nexti () in
         Printf.printf "%s %d\n" id (b2i (gPR_GetFlag (mkgpr a f) (zi m)))
       | "setflag" -> let id = next () in let a = nexti () in let f = nexti () in let m = nexti () in
